@@ -2,7 +2,9 @@
 // CreateIBBDigest, IBBsMatchBPMDigest, StitchFITEntries) and pkg/tools.CalcImageOffset against
 // Model/IBB.v, on synthetic flash images (bare BIOS region, Intel flash descriptor + BIOS
 // region, FMAP + CBFS) and on variants of testdata/firmware/fake_intel_firmware.fd with the
-// FIT rewritten.
+// FIT rewritten; seq.go runs the same operations in sequences on ONE BootGuard object, ONE
+// reused image buffer and ONE reused file (and adds layouts whose mapped region does not end
+// at the end of the image).
 //
 // The oracle is written from the property text, not from the model: it knows the FIT it wrote
 // and where it put each region, maps a physical address to `region_end - (4GiB - addr)`,
@@ -953,8 +955,8 @@ func caseDigestAndMatch(im *image) {
 	}
 	r := caseDigest(im, ver, segs, ai)
 	an := algNames[ai]
-	if !r.ok || rng.Intn(2) == 0 {
-		return
+	if im.Inner || !r.ok || rng.Intn(2) == 0 {
+		return // (the validator maps the end of the IMAGE to 4 GiB: unspecified for an inner region)
 	}
 	b := newBG(ver, 1, uint16(an.id))
 	setSegs(b, ver, segs)
@@ -1278,7 +1280,7 @@ func probes() {
 // ------------------------------------------------------------------ main
 
 func main() {
-	ctx = gal.New("C19", header, 130)
+	ctx = gal.New("C19", header, 150)
 	rng = ctx.Rng
 	logrus.SetOutput(os.Stderr)
 	logrus.SetLevel(logrus.ErrorLevel)
@@ -1317,6 +1319,20 @@ func main() {
 		if rng.Intn(2) == 0 {
 			caseStitch(im)
 		}
+		// layouts whose mapped region does not end at the end of the image (single calls)
+		if i%4 == 1 {
+			var in2 *image
+			if rng.Intn(3) == 0 {
+				in2 = genFmapInner()
+			} else {
+				in2 = genIFDInner(randomPlan())
+			}
+			caseOffset(in2)
+			caseDigestAndMatch(in2)
+			if !in2.NoFit {
+				caseSegments(in2)
+			}
+		}
 		// the same operations in sequences on one object / one buffer / one file (seq.go)
 		if i%3 == 0 {
 			caseSequence()
@@ -1349,5 +1365,5 @@ func main() {
 	}
 	probes()
 	os.Stdout = stdout
-	ctx.Finish("one case per call of the real code (CalcImageOffset, CreateIBBSegments, GetIBBsDigest, CreateIBBDigest, IBBsMatchBPMDigest, StitchFITEntries) on generated images; the model must reproduce outcome class, segment list, the fingerprint of the hashed bytes (found by hashing candidates with Go crypto) and the exact file contents after stitching")
+	ctx.Finish("sequences of calls on one BootGuard object, one reused image buffer and one reused file whose contents and layout change between the calls (the model threads the object through the calls; every call is judged against the image it was given), and one case per call of the real code (CalcImageOffset, CreateIBBSegments, GetIBBsDigest, CreateIBBDigest, IBBsMatchBPMDigest, StitchFITEntries) on generated images; the model must reproduce outcome class, segment list, the fingerprint of the hashed bytes (found by hashing candidates with Go crypto) and the exact file contents after stitching")
 }
